@@ -71,6 +71,7 @@ func (sc *Scenario) Clone() *Scenario {
 			}
 		}
 		m.Fails = append([]string(nil), n.Fails...)
+		m.FailOnce = append([]string(nil), n.FailOnce...)
 		out.Nodes = append(out.Nodes, m)
 	}
 	return out
